@@ -162,6 +162,69 @@ pub fn standard_run(ctx: &Ctx, check: CheckFn, plans: &[GenPlan], use_corpus: bo
     }
 }
 
+/// what the module-level structure of an input consists of (C04's quantifier:
+/// entity kinds x imported/local x 32/64-bit x shared x segment encodings)
+pub fn structure_labels(out: &mut CaseOut, d: &crate::decode::ModuleD) {
+    use crate::decode::ImportKind;
+    for e in &d.elems {
+        out.label(format!("elem-flag:{}", e.flag));
+    }
+    for x in &d.datas {
+        out.label(format!("data-flag:{}", x.flag));
+    }
+    for i in &d.imports {
+        out.label(match i.kind {
+            ImportKind::Func(_) => "imported:function",
+            ImportKind::Table(_) => "imported:table",
+            ImportKind::Memory(_) => "imported:memory",
+            ImportKind::Global(_) => "imported:global",
+            ImportKind::Tag => "imported:tag",
+        });
+    }
+    if !d.tables.is_empty() {
+        out.label("local:table");
+    }
+    if !d.memories.is_empty() {
+        out.label("local:memory");
+    }
+    if !d.globals.is_empty() {
+        out.label("local:global");
+    }
+    for i in 0..d.n_mems() {
+        if let Some(m) = d.mem_ty(i) {
+            let imp = (i as usize) < d.imp_mems.len();
+            if m.shared {
+                out.label(if imp { "memory:shared,imported" } else { "memory:shared,local" });
+            }
+            if m.memory64 {
+                out.label(if imp { "memory:64-bit,imported" } else { "memory:64-bit,local" });
+            }
+        }
+    }
+    for i in 0..d.n_tables() {
+        if let Some(t) = d.table_ty(i) {
+            if t.table64 {
+                out.label(if (i as usize) < d.imp_tables.len() { "table:64-bit,imported" } else { "table:64-bit,local" });
+            }
+            if t.elem == crate::ops::VT::ExternRef {
+                out.label("table:externref");
+            }
+        }
+    }
+    for (i, g) in d.globals.iter().enumerate() {
+        let _ = i;
+        if let Some(o) = g.init.first() {
+            out.label(format!("global-init:{}", o.name));
+        }
+    }
+    if d.start.is_some() {
+        out.label("start-function");
+    }
+    for e in &d.exports {
+        out.label(format!("export:{:?}", e.kind));
+    }
+}
+
 pub fn feature_labels(out: &mut CaseOut, spec: &gen::Spec) {
     if spec.feats == 0 {
         out.label("feat:mvp");
